@@ -165,6 +165,25 @@ func streamConc(c *ctx) {
 					}
 				}(g, r.U64())
 			}
+			// a second client, built WITHOUT a broadcast address (the default one is used: nobody answers there), used by
+			// four goroutines and a discovery at once: nothing it resolves at call time may be stored in the client
+			if bindMode == "0" {
+				z := uhppote.NewUHPPOTE(types.BindAddrFrom(netip.MustParseAddr("127.0.0.1"), 0), types.BroadcastAddr{},
+					types.ListenAddrFrom(netip.MustParseAddr("127.0.0.1"), uint16(freePort())), T/4, nil, false)
+				for g := 0; g < 4; g++ {
+					wg.Add(1)
+					go func(g int) {
+						defer wg.Done()
+						z.GetDevice(uint32(4100001 + g))
+						z.GetTime(uint32(4100001 + g))
+					}(g)
+				}
+				wg.Add(1)
+				go func() {
+					defer wg.Done()
+					z.GetDevices()
+				}()
+			}
 			// discovery and the listener run alongside (bind port 0 only: discovery holds the port for a whole timeout)
 			discovered := int64(-1)
 			if bindMode == "0" {
